@@ -54,14 +54,17 @@ def judge(lib, res, front):
                 "link": "link fails (documented name not defined?)"}[res["stage"]]
         problems.append((res["stage"], "%s: %s" % (what, res["detail"][-900:]), None))
         return problems
-    plan = xlib.call_plan(lib)
+    plan = xlib.plan(lib)
     exp = split_calls(res["expected"])
     got = split_calls(res["stream"])
-    for site, (f, k) in enumerate(plan):
+    for site, op in enumerate(plan):
+        f, k = op.get("f"), op.get("k")
+        if f is None:
+            f = dict(name="~" + op["cls"], params=[], ret=None, kind="dtor", fid=op["fid"])
         e, g = exp.get(site, []), got.get(site)
         if g is None:
             problems.append(("call-not-reached:" + rows_of(f), "call site %d (%s) was never reached: %s"
-                             % (site, xlib.decl_text(f), res["detail"][-600:]), site))
+                             % (site, describe(f), res["detail"][-600:]), site))
             break
         if e != g:
             i = next((j for j, (a, b) in enumerate(zip(e, g)) if a != b), min(len(e), len(g)))
@@ -69,10 +72,22 @@ def judge(lib, res, front):
             got_l = g[i] if i < len(g) else "(nothing)"
             what = culprit(f, exp_l, got_l)
             problems.append(("%s:%s" % (what, "library-received" if exp_l[:1] in "AE" else "caller-got"),
-                             "call %d of %s: expected stream line %r, observed %r" % (k, xlib.decl_text(f), exp_l, got_l), site))
+                             "%s call %s of %s: expected stream line %r, observed %r" % (op["kind"], k, describe(f), exp_l, got_l), site))
+    if not problems and res["stage"] == "ok":
+        el = [l for l in res["expected"] if l.startswith("LIVE")]
+        gl = [l for l in res["stream"] if l.startswith("LIVE")]
+        if el != gl:
+            problems.append(("live-objects", "live C++ objects at exit: expected %s, library reports %s" % (el, gl), None))
     if res["stage"] == "run" and not problems:
         problems.append(("driver-crash", "driver exits abnormally: " + res["detail"][-900:], None))
     return problems
+
+
+def describe(f):
+    try:
+        return ("%s::" % f["cls"] if f.get("cls") else "") + xlib.decl_text(f)
+    except Exception:
+        return f.get("name", "?")
 
 
 def rows_of(f):
@@ -99,9 +114,14 @@ def culprit(f, exp_l, got_l):
 def minimise(lib, site, front, options, key):
     """Structural reduction: keep only the failing function and the failing call, then drop
     parameters that are not needed to reproduce the same key."""
-    plan = xlib.call_plan(lib)
-    f, k = plan[site]
-    small = dict(lib, funcs=[dict(copy.deepcopy(f), calls=[copy.deepcopy(f["calls"][k])])])
+    plan = xlib.plan(lib)
+    if plan[site]["kind"] != "call" or plan[site].get("cls"):
+        # class life cycles are reduced by dropping the plain functions only
+        small = dict(lib, funcs=[])
+        res = wrap_and_run(small, front, options)
+        return small if any(p[0] == key for p in judge(small, res, front)) else lib
+    f, k = plan[site]["f"], plan[site]["k"]
+    small = dict(lib, classes=[], funcs=[dict(copy.deepcopy(f), calls=[copy.deepcopy(f["calls"][k])])])
     res = wrap_and_run(small, front, options)
     probs = judge(small, res, front)
     if not any(p[0] == key for p in probs):
@@ -137,19 +157,22 @@ def _job(job):
     idx, lib, front, options, asan = job
     res = wrap_and_run(lib, front, options, asan=asan)
     probs = judge(lib, res, front)
-    plan = xlib.call_plan(lib)
+    plan = xlib.plan(lib)
     out = dict(idx=idx, ncalls=len(plan), problems=[], labels=[], nontrivial=[], sample=None)
-    failing_sites = set(p[2] for p in probs if p[2] is not None)
-    for site, (f, k) in enumerate(plan):
-        call = f["calls"][k]
-        if f["params"] or f["ret"]:
+    for site, op in enumerate(plan):
+        if op["kind"] == "del":
+            out["labels"].append("op:del")
+            continue
+        f, k = op["f"], op["k"]
+        out["labels"].append("op:" + op["kind"])
+        if f["params"] or f["ret"] or op["kind"] != "call":
             out["nontrivial"].append((rows_of(f), tuple(sorted((p["row"], p["T"]) for p in f["params"])),
                                       f["ret"]["row"] if f["ret"] else "void", repr(sorted(options.items())) if options else ""))
         for p in f["params"]:
             out["labels"].append("row:" + p["row"])
         out["labels"].append("ret:" + (f["ret"]["row"] if f["ret"] else "void"))
-    if plan:
-        f, k = plan[0]
+    if plan and plan[0]["kind"] == "call":
+        f, k = plan[0]["f"], plan[0]["k"]
         exp = split_calls(res["expected"]).get(0, [])
         out["sample"] = dict(front=front, options=options, decl=xlib.decl_text(f), call=f["calls"][k], expected_stream=exp)
     seen = set()
